@@ -68,6 +68,22 @@ def exotic_family():
     out.append(('twin:pruned:exotic-first', lambda: twin_pruned(True)))
     out.append(('twin:pruned:ordinary-first', lambda: twin_pruned(False)))
     out.append(('update', lambda: c02.ev(('u', c02.shape_term(((1, 2), (), ()), (0, 1, 0)), c02.shape_term(((1, 2), (), ()), (0, 0, 1), base=4)))))
+    # one bag holding a cell AND the pruned branch that stands for it (equal level-0 hashes, different cells): a Merkle update whose old
+    # side prunes what the new side carries in full; two proofs of one tree pruned differently; a sub-tree pruned in one slot and kept in another
+    for si, shape in enumerate(shapes):
+        for states in itertools.product((0, 1), repeat=len(shape)):
+            if any(states):
+                out.append((f'standfor:update:{si}:{"".join(map(str, states))}',
+                            (lambda shape=shape, states=states: c02.ev(('u', c02.shape_term(shape, states), c02.shape_term(shape, [0] * len(shape)))))))
+    sh = shapes[0]
+    for sa in itertools.product((0, 1), repeat=3):
+        for sb in itertools.product((0, 1), repeat=3):
+            if sa < sb:
+                out.append((f'standfor:two-proofs:{"".join(map(str, sa))}:{"".join(map(str, sb))}',
+                            (lambda sa=sa, sb=sb: RC.RCell('1', (c02.ev(('m', c02.shape_term(sh, sa))), c02.ev(('m', c02.shape_term(sh, sb))))))))
+    x = ('n', 5, [('n', 6, [])])
+    out.append(('standfor:slots:pruned-first', lambda: c02.ev(('m', ('n', 0, [('p', 1, x), x])))))
+    out.append(('standfor:slots:pruned-last', lambda: c02.ev(('m', ('n', 0, [x, ('p', 1, x)])))))
     out.append(('library', lambda: RC.RCell('1', (RC.library(bytes(range(32))), RC.RCell('0')))))
     out.append(('pruned-root', lambda: RC.pruned_raw(5, [bytes([7]) * 32, bytes([9]) * 32], [3, 4])))
     return out
